@@ -170,7 +170,15 @@ Definition run_crash (x : sx) : sx :=
     let d := run_effects (pre_state o old) (firstn (Z.to_nat (sx_int (sx_nth 5 x))) es) in
     let '(g1, d1) := recover d SEntry in
     let '(g2, _) := recover d1 SNew in
-    L [L (map enc_effect es); L [enc_got g1; enc_got g2; heal g1; heal g2]]
+    (* (rewrite of the access log) the entry's last use as a restarted limiter reads it from the rewritten log: the one
+       the operation flushed - the rewrite drops old lines from the top, never the records it has just appended *)
+    let last_use := match o with
+                    | OAtimesRewrite _ _ =>
+                      (* compared for the run that is not killed (no syscall named): the rewrite keeps the new records *)
+                      if nonempty (sx_str (sx_nth 2 x)) then -1 else sx_int (sx_nth 1 (sx_nth 7 x))
+                    | _ => -1
+                    end in
+    L [L (map enc_effect es); L [enc_got g1; enc_got g2; heal g1; heal g2; I last_use]]
   end.
 
 (* the implementation's side: the calls the real code made (from the case) and what the probes saw *)
